@@ -483,7 +483,7 @@ class Rewriter:
             if guard > 50:
                 raise ExtractError('R13 does not terminate')
             mm = mask(b)
-            m = re.search(r'\.(and_then|map|map_err|unwrap_or_else|unwrap_or)\s*\(', mm)
+            m = re.search(r'\.(and_then|map|map_err|unwrap_or_else|unwrap_or|filter)\s*\(', mm)
             if not m:
                 return b
             name = m.group(1)
@@ -506,7 +506,11 @@ class Rewriter:
                 pat = pat.split(':')[0].strip() or '_'
                 if pat == '_':
                     pat = '_e__'
-                if name == 'and_then' and ty == 'option':
+                if name == 'filter' and ty == 'option':
+                    # Option::filter hands the closure a reference: `|&x| c` / `|x| c(*x)`
+                    pat = pat.lstrip('&').strip()
+                    rep = 'match %s { Some(%s) => (if %s { Some(%s) } else { None }), None => None }' % (recv, pat, body, pat)
+                elif name == 'and_then' and ty == 'option':
                     rep = 'match %s { Some(%s) => %s, None => None }' % (recv, pat, body)
                 elif name == 'map' and ty == 'option':
                     rep = 'match %s { Some(%s) => Some(%s), None => None }' % (recv, pat, body)
@@ -799,6 +803,7 @@ class Rewriter:
         b = self.sub('R6:unreachable', r'\bunreachable!\(\)', 'unreachable_unchecked::<()>()', b)
         b = self.sub('R20:variant-path', r'\bErr\(AllocErr\) =>', 'Err(CollectionAllocErr::AllocErr) =>', b)
         b = self.sub('R20:diverging-stmt', r'\bhandle_alloc_error\(([^;{}]*)\);', r'handle_alloc_error::<()>(\1);', b)
+        b = self.sub('R20:diverging-stmt', r'\bcapacity_overflow\(\);', 'capacity_overflow::<()>();', b)
         b = self.sub('R20:question-mark-from', r'\b(res)\?', r'(match \1 { Ok(v__) => v__, Err(_e__) => { return Err(CollectionAllocErr::AllocErr); } })', b)
         return b
 
@@ -990,6 +995,7 @@ class Rewriter:
         b = self.method_to_fn(b, 'add', 'ptr_add', 'R7:ptr-add')
         b = self.method_to_fn(b, 'is_null', 'ptr_is_null', 'R2:is_null')
         b = self.sub('R8:layout-new', r'\bLayout::new::<\s*ChunkFooter\s*>\(\)', 'FOOTER_LAYOUT()', b)
+        b = self.sub('R8:layout-new-T', r'\bLayout::new::<\s*T\s*>\(\)', 'layout_new_T()', b)
         b = self.sub('R1:phantom', r'\b\w+\s*:\s*PhantomData\s*,?', '', b)
         b = self.method_to_fn(b, 'count', 'raw_iter_count', 'R13:iter-count', extra_first='w')
         b = self.sub('R8:size_of', r'\bmem::size_of::<\s*ChunkFooter\s*>\(\)', 'FOOTER_SIZE', b)
